@@ -35,6 +35,11 @@ private:
         counter = i + 1;
         return (T_PointerType)i;
       }
+      if (i == max_val) {
+        // max_val may be the largest value of the type: i++ would wrap around
+        // and the loop would never end when every index is in use
+        break;
+      }
     }
     for (T_PointerTypeUnsigned i = 1; i < counter; i++) {
       if (pointer_map.find(i) == pointer_map.end()) {
